@@ -1348,8 +1348,11 @@ def run(tier, seed):
             chunk = cases[i:i + CH]
             executed = []
             for case, res in zip(chunk, runner.run(chunk)):
-                ctx.count()
                 rows, fails, parsed = runner.evaluate(case, res)
+                # the unit of evaluation is the free-text field (each is read back from csv, xml and emacs and
+                # compared on its own); distinct_nontrivial counts fields too
+                ctx.count(max(1, sum(1 for r in (rows or []) for v in (r.payee, r.code, r.account, r.pnote, r.xnote, r.commodity, r.file) if v)))
+                ctx.feature("journals-run")
                 if rows is None:
                     ctx.feature("case:register-failed")
                     ctx.sample({"journal-rejected": case.journal()[:400], "stderr": res["reg"][2].decode("utf-8", "replace")[:300]}, cap=3)
